@@ -792,3 +792,42 @@ async fn d15a_restore_vlog_state_without_cache() {
 	let r3 = tree.begin().unwrap().get(b"k3");
 	assert_eq!(r3.ok().flatten(), Some(big(b'3')), "D15a: value written after a restore is unreadable after reopen");
 }
+
+// D16w: a transient WAL append failure (hook) must not endanger later acknowledged commits
+#[cfg(surrealkv_verif)]
+#[tokio::test(flavor = "multi_thread")]
+async fn d16w_transient_wal_append_failure() {
+	use std::sync::atomic::Ordering;
+	let d = td();
+	let opts = mk_opts(d.path().to_path_buf(), |o| {
+		o.flush_on_close = false;
+	});
+	{
+		let tree = Tree::new(Arc::clone(&opts)).unwrap();
+		put(&tree, b"k1", b"v1").await;
+		// the next record: header append succeeds (0), payload append fails (1)
+		crate::wal::verif_hooks::FAIL_WAL_APPEND_IN.store(1, Ordering::SeqCst);
+		let mut tx = tree.begin().unwrap();
+		tx.set(b"k2", b"v2").unwrap();
+		let r = tx.commit().await;
+		assert!(r.is_err(), "the injected failure did not surface: {:?}", r);
+		crate::wal::verif_hooks::FAIL_WAL_APPEND_IN.store(-1, Ordering::SeqCst);
+		// the store keeps accepting commits (no sticky error): this one is acknowledged
+		let mut tx = tree.begin().unwrap();
+		tx.set(b"k3", b"v3").unwrap();
+		let r3 = tx.commit().await;
+		println!("D16w commit after the failed one: {:?}", r3);
+		if r3.is_err() {
+			// a sticky error would be an acceptable outcome (property C15 allows it)
+			return;
+		}
+		tree.close().await.unwrap();
+	}
+	let tree = Tree::new(Arc::clone(&opts));
+	assert!(tree.is_ok(), "D16w: reopen fails after a transient WAL failure: {:?}", tree.err());
+	let tree = tree.unwrap();
+	let tx = tree.begin().unwrap();
+	assert_eq!(tx.get(b"k1").unwrap().as_deref(), Some(&b"v1"[..]));
+	assert_eq!(tx.get(b"k2").unwrap(), None, "D16w: the failed commit is visible after recovery");
+	assert_eq!(tx.get(b"k3").unwrap().as_deref(), Some(&b"v3"[..]), "D16w: a commit acknowledged after the failed one is lost by recovery");
+}
